@@ -77,7 +77,7 @@ var opName = map[string]int{
 }
 
 var (
-	nilValue   = reflect.New(reflect.TypeOf((*interface{})(nil)).Elem()).Elem()
+	nilValue   = reflect.ValueOf(struct{ V interface{} }{}).Field(0)
 	trueValue  = reflect.ValueOf(true)
 	falseValue = reflect.ValueOf(false)
 	oneLiteral = &ast.LiteralExpr{Literal: reflect.ValueOf(int64(1))}
